@@ -258,4 +258,47 @@ func solveAll(qs []*query, dir string, timeoutSec int, workers int, thorough boo
 	}
 	close(ch)
 	wg.Wait()
+	// Second chance for obligations that were not decided: on a loaded machine a query that needs two seconds of
+	// solver time can run into the wall-clock limit. The few that are left are run again, a few at a time, with three
+	// times the limit, the default configuration first. (A verdict is still only ever `unsat` from a solver.)
+	var again []*query
+	for _, qq := range qs {
+		if qq.expect == "unsat" && !qq.quick && qq.result.status != "unsat" && qq.result.status != "sat" {
+			again = append(again, qq)
+		}
+	}
+	if len(again) == 0 || len(again) > 12 || thorough {
+		return
+	}
+	sem := make(chan struct{}, 3)
+	var wg2 sync.WaitGroup
+	for _, qq := range again {
+		wg2.Add(1)
+		go func(qq *query) {
+			defer wg2.Done()
+			sem <- struct{}{}
+			defer func() { <-sem }()
+			file := filepath.Join(dir, safeFile(qq.name)+".smt2")
+			if _, err := os.Stat(file); err != nil {
+				return
+			}
+			r := runSolver(solvers[0], file, 3*timeoutSec)
+			if r.status != "unsat" && r.status != "sat" {
+				for _, rr := range raceSolvers(file, 3*timeoutSec) {
+					if rr.status == "unsat" || rr.status == "sat" {
+						r = rr
+						break
+					}
+				}
+			}
+			if r.status == "unsat" {
+				r.seconds += qq.result.seconds
+				qq.result = r
+				if os.Getenv("VERIF_KEEP_ALL") == "" {
+					os.Remove(file)
+				}
+			}
+		}(qq)
+	}
+	wg2.Wait()
 }
